@@ -97,5 +97,19 @@ func findModuleAndIsExternal(y Definition, prefix string) (*Module, bool, error)
 		}
 		return nil, true, errors.New("module not found " + prefix)
 	}
+	if sub.module == nil && m.belongsTo != nil {
+		// several submodules importing one module share a single entry in the module
+		// they belong to, only that entry was resolved
+		if main, isModule := m.parent.(*Module); isModule {
+			for _, i := range main.imports {
+				if i.moduleName == sub.moduleName && i.module != nil {
+					return i.module, true, nil
+				}
+			}
+		}
+	}
+	if sub.module == nil {
+		return nil, true, errors.New("module not loaded " + prefix)
+	}
 	return sub.module, true, nil
 }
